@@ -17,6 +17,9 @@ Inductive anomaly :=
 | AAccAndRet (j : N)                 (* both accepted and returned *)
 | AUnknownJob (j : N)                (* an event about a job that was never dispatched *)
 | ASilentLoss (j : N) (opi : N)      (* dropped while not in progress on a worker dying in this op *)
+| AActiveOver (opi active inprog : N) (* settled point: more workers counted as working than workers really running a
+                                        job -- a job waits at a worker that runs nothing (e.g. a replacement that was
+                                        not given its predecessor's queue); judged only where the model's own run is clean *)
 (* C14 *)
 | AAffinity (k w1 w2 : N) (opi : N)  (* key k in progress on two workers at once *)
 | AOrder (k j1 j2 : N)               (* key-persistent: j2 dispatched after j1 but started before it *)
@@ -120,7 +123,8 @@ Definition scan_query (r : router) (nolimit : bool) (opi : N) (inp : list prog) 
    | _, _ => [] end)
   ++ (match active with
       | Some a => let n := N.of_nat (length (dedup (map p_w inp))) in
-                  if a <? n then [AActiveUnder opi a n] else []
+                  (if a <? n then [AActiveUnder opi a n] else [])
+                  ++ (if n <? a then [AActiveOver opi a n] else [])
       | None => [] end).
 
 Fixpoint scan_ops (r : router) (nolimit : bool) (all : list op) (os : list op) (evs : list (list event))
@@ -214,7 +218,8 @@ Definition jobs_mentioned (os : list op) (flat : list event) : list N :=
 
 Definition is_c13 (a : anomaly) : bool :=
   match a with
-  | ATwoStarts _ | ATwoFates _ | AEndNoStart _ | ARetNoDisc _ | AAccAndRet _ | AUnknownJob _ | ASilentLoss _ _ => true
+  | ATwoStarts _ | ATwoFates _ | AEndNoStart _ | ARetNoDisc _ | AAccAndRet _ | AUnknownJob _ | ASilentLoss _ _
+  | AActiveOver _ _ _ => true
   | _ => false
   end.
 
